@@ -81,6 +81,7 @@ def run(ctx):
         "the byte string given to Unmarshal / New...FromData is compared with a private copy after the call "
         "(`inmut` must be true); for arbitrary bytes the caller's buffer is one reused region overwritten right "
         "after the call, before the decoded bitmap is read",
+        "degenerate inputs: no bytes as nil and as empty slice, empty non-nil lists, empty blocks inside lists, nil zero-length iterator slices; member counts around k*64 +- 1; lists of 255/256/257/300 blocks; a block filled by runs of Set calls cut at 255/256/257 (bsetrun: one run-length-encoded event), then emptied by Reverse",
         "the caller owns what it was given: every returned slice (list forms, Marshal bytes, block lists) is overwritten by the harness (elements flipped, capacity refilled through s[:0]) once it has been rendered; equal values are encoded / listed repeatedly in one process with that in between, later calls are judged as usual",
         "late traces (about half): Marshal's bytes, list-form results and iterator slices are kept as returned and "
         "rendered when the trace is over; a call that does not return within 40 s is a rejected `hang` event",
